@@ -136,7 +136,9 @@ def comp_tol(kind, truth, c, rscale, vscale):
     if kind == "ang_i":
         return base * 10
     if kind == "ang":
-        return base * 10
+        # longitude / latitude of the position: the same rounding of the cartesian state seen from the polar axis
+        rho = max(math.hypot(c["r"][0], c["r"][1]), 1e-300)
+        return base * 10 + 64 * 2.220446049250313e-16 * rscale / rho
     if kind == "ang_node":
         return base * cond_i
     if kind in ("ang_peri",):
@@ -157,7 +159,13 @@ def comp_tol(kind, truth, c, rscale, vscale):
     if kind == "rate_n":
         return 1e-9 * nscale
     if kind == "angrate":
-        return 1e-9 * max(abs(truth), vscale / rscale)
+        # theta_dot = (x vy - y vx) / rho^2 and phi_dot carry 1/rho (rho = distance to the polar axis): over the poles the
+        # rounding of the cartesian state (<= 64 ulp of |r|, |v|: measured 1 ulp) is amplified by |v|/rho^2 and 1/rho.
+        # Observed 3.5e-13 rad/s (6.8e-9 relative) at rho = 5.6 km, r = 25 000 km, i = pi/2 - 1.6e-8.
+        rho = max(math.hypot(c["r"][0], c["r"][1]), 1e-300)
+        vxy = math.hypot(c["v"][0], c["v"][1])
+        amp = 64 * 2.220446049250313e-16 * (rscale * (vxy / rho ** 2 + 2 * abs(truth) / rho) + vscale / rho)
+        return 1e-9 * max(abs(truth), vscale / rscale) + amp
     raise ValueError(kind)
 
 
